@@ -7,23 +7,27 @@ P=$1; K=$2; WT=/tmp/wt/$P; OUT=$WT/_out
 export GOFLAGS=-mod=mod GOPROXY=off GOSUMDB=off GOTOOLCHAIN=local; unset GOWORK
 cd $WT || exit 2
 git checkout -q -- . 
-DEMO=$(python3 -c "import json,re;print(re.sub(r'git apply [^&;]*(&&|;)','',json.load(open('$OUT/m$K.json'))['demo_cmd']))")
+DEMO=$(python3 -c "import json,re;d=re.sub(r'git apply [^&;]*(&&|;)','',json.load(open('$OUT/m$K.json'))['demo_cmd']);d=re.sub(r';\s*rm -f [^;&]*$','',d);print(d)")
+[ -n "$DEMO_OVERRIDE" ] && DEMO="$DEMO_OVERRIDE"
 RUNS=$(python3 -c "import json;print(json.load(open('$OUT/m$K.json')).get('demo_runs_in_sandbox'))")
 echo "== $P m$K demo_cmd: $DEMO"
 orig=skip; mut=skip; suite=skip
 if [ "$RUNS" = "True" ]; then
   if bash -c "$DEMO" >/tmp/seed_$P_$K.orig 2>&1; then orig=pass; else orig=fail; fi
 fi
+git clean -fdq -e _out
 git apply $OUT/m$K.diff || { echo "patch does not apply"; exit 1; }
 if [ "$RUNS" = "True" ]; then
   if bash -c "$DEMO" >/tmp/seed_$P_$K.mut 2>&1; then mut=pass; else mut=fail; fi
 fi
+git clean -fdq -e _out   # the demonstration's own files are not part of the suite
 if go test -vet=off -count=1 ./client/ ./crypto/... ./gossip/ ./log/ ./storage/bplus/ ./testutils/spec/ >/tmp/seed_$P_$K.suite 2>&1; then suite=pass; else
   # gossip TestMessageQueue is flaky under load: retry once
   if go test -vet=off -count=1 ./client/ ./crypto/... ./gossip/ ./log/ ./storage/bplus/ ./testutils/spec/ >/tmp/seed_$P_$K.suite 2>&1; then suite=pass; else suite=fail; fi
 fi
 gofmt -l $(git diff --name-only) 2>&1 | sed 's/^/gofmt: /'
 git checkout -q -- .
+git clean -fdq -e _out
 echo "   original: demo=$orig | mutant: demo=$mut suite=$suite"
 rm -f /tmp/seed_$P_$K.*
 ok=0
@@ -35,7 +39,7 @@ if [ $ok != 0 ]; then
 import json,sys
 src=json.load(open(sys.argv[1]))
 meta={"property":src["property"],"breaks":src["summary"],"needs":src["needs"],"files":src.get("files"),
- "demo_cmd":src.get("demo_cmd"),"demo_runs_in_sandbox":src.get("demo_runs_in_sandbox"),
+ "demo_cmd":(__import__("os").environ.get("DEMO_OVERRIDE") or src.get("demo_cmd")),"demo_runs_in_sandbox":src.get("demo_runs_in_sandbox"),
  "confirmed":{"demo_on_original":sys.argv[3],"demo_with_patch":sys.argv[4],"pinned_suite_with_patch":sys.argv[5],
    "how":"tools/confirm_seed.sh in a scratch worktree of /repo HEAD (removed afterwards)" if sys.argv[6]=="1" else "patched package cannot be built in this sandbox (rocksdb cgo): patch applied, pinned suite run, type-checked through the checker's loader; demonstration read, not executed"},
  "detected_by":[]}
